@@ -1,6 +1,7 @@
 SPECIFICATION Spec
 CONSTANTS N = 8
           MaxPerm = 4
+          Repeats = TRUE
           Emit = FALSE
 INVARIANT TypeOK
 INVARIANT MapsExactly
